@@ -973,6 +973,8 @@ struct WorldT : PolicyOps {
     ErrInfo
     vp_make(int vslot, int cls, int alias, int route, bool shared) override {
         ErrInfo err;
+        Held<P>::plain[vslot].reset();
+        Held<P>::shared[vslot].reset();
         guarded(err, [&] {
             if (shared)
                 Held<P>::shared[vslot].emplace(make_vsp<P>(cls, alias, route));
